@@ -300,6 +300,12 @@ func negotiateSession(ctx context.Context, location, origin jid.JID, rw io.ReadW
 	for s.state&Ready == 0 {
 		var mask SessionState
 		var err error
+		// A negotiator need not look at the context itself (and on a transport
+		// without deadlines nothing else can interrupt it): never start a step
+		// after the context has ended.
+		if err = ctx.Err(); err != nil {
+			return s, err
+		}
 		// Clear the info if the stream was restarted (but preserve to/from so that
 		// we can verify that it has not changed).
 		if rw != nil {
